@@ -29,9 +29,11 @@ pub enum ROp {
     StopHeld,
     /// make the held instance stop itself (`Context::stop` in a handler)
     SelfStopHeld,
+    /// restart the held instance: the registry's view of it does not change
+    RestartHeld,
 }
 
-pub const ALPHABET: [ROp; 9] = [
+pub const ALPHABET: [ROp; 10] = [
     ROp::FromRegistry,
     ROp::TryFromRegistry,
     ROp::AlreadyRunning,
@@ -41,6 +43,7 @@ pub const ALPHABET: [ROp; 9] = [
     ROp::StopHeld,
     ROp::SelfStopHeld,
     ROp::Setup,
+    ROp::RestartHeld,
 ];
 
 /// identity of the instance behind an address: who answers a call (None: nobody any more)
@@ -98,6 +101,13 @@ pub async fn reg_op<const K: u8>(held: &mut Option<Addr<Probe<K>>>, op: ROp) -> 
         ROp::AlreadyRunning => Res::OptBool(Probe::<K>::already_running().await),
         ROp::StopHeld => match held.as_mut() {
             Some(a) => match a.stop() {
+                Ok(()) => Res::Ok,
+                Err(e) => Res::Err(errkind(&e)),
+            },
+            None => Res::None,
+        },
+        ROp::RestartHeld => match held.as_mut() {
+            Some(a) => match a.restart() {
                 Ok(()) => Res::Ok,
                 Err(e) => Res::Err(errkind(&e)),
             },
@@ -285,7 +295,7 @@ fn apply(m: &Model, e: &HEvent, hold_probe: &dyn Fn(u16, usize) -> bool) -> Opti
                     let pred = n.entry[k].map(|x| n.alive(x));
                     matches!(res, Res::OptBool(b) if *b == pred).then_some(n)
                 }
-                ROp::StopHeld | ROp::SelfStopHeld => Some(n),
+                ROp::StopHeld | ROp::SelfStopHeld | ROp::RestartHeld => Some(n),
             }
         }
     }
@@ -477,7 +487,7 @@ fn push_case(v: &mut Vec<Case>, programs: Vec<Vec<(u8, ROp)>>, preregistered: bo
 }
 
 fn needs_held(op: ROp) -> bool {
-    matches!(op, ROp::StopHeld | ROp::SelfStopHeld)
+    matches!(op, ROp::StopHeld | ROp::SelfStopHeld | ROp::RestartHeld)
 }
 
 fn cases(tier: Tier) -> Vec<Case> {
